@@ -66,6 +66,22 @@ CLAIMED = {
         "finding (SQLAlchemy text() colon processing).",
         "DESIGN.md §6 C01",
     ),
+    "C02": (
+        "Lean 4 theorems (scanner completeness reduced to local key conditions, matcher/limit completeness, no-duplicates; SQL WHERE completeness under the table invariant) + differential correspondence on both backends + reference-answer oracle",
+        "Proof: NostrRelay/Props/C02.lean proves for every sorted store, every match list and every target key that the "
+        "LMDB scanner yields the key's event id when the keys between it and the seek position pass the in-match tests and "
+        "the earlier matches end with 'next match' (C02_kv_scan_complete); that execute_one_plan delivers every stored "
+        "candidate passing the residual filter when the limit does not truncate, never twice; that strict NIP-01 matching "
+        "implies the residual filter; and on SQL that every stored row strictly matching a well-formed filter satisfies "
+        "its WHERE predicate (rows pairwise distinct). The classes where the current code is incomplete are Lean witnesses "
+        "(decide +kernel) + known findings. Tie/search as C01, plus the oracle 'strict matches under the limit are all "
+        "delivered once' with every planner index exercised (distribution in the evidence).",
+        "Trusted: as C01. The instantiation of the scanner's local conditions from the key layout is proved for the "
+        "fixed-width indexes in Props/C02Scan.lean when present; until then the KV completeness theorem is conditional on "
+        "those hypotheses and the unconditional claim rests on the correspondence + oracle. Domain: well-formed conjunctive "
+        "filters (not {} / pure unbounded range scans, ids/authors of 64 hex digits, no `search`).",
+        "DESIGN.md §6 C02",
+    ),
 }
 
 NOT_YET = "not reached yet in this round (model/tie not built); see DESIGN.md §10 staging — no weaker technique is substituted"
